@@ -2,6 +2,7 @@
 From Coq Require Import List String.
 From MV Require Import Base.Sx.
 From MV Require Util.PluginRef.
+From MV Require Util.EpName.
 From MV Require IH5.OverlayRun.
 From MV Require Util.Diff.
 From MV Require Util.DirHash.
@@ -27,6 +28,7 @@ Local Open Scope string_scope.
 Definition dispatch (x : sx) : sx :=
   match x with
   | L [A "c16"; c] => Util.PluginRef.run_c16 c
+  | L [A "c16e"; c] => Util.EpName.run_c16e c
   | L [A "c01"; c] => IH5.OverlayRun.run_c01 c
   | L [A "c18"; c] => Util.Diff.run_c18 c
   | L [A "c19"; c] => Util.DirHash.run_c19 c
